@@ -112,6 +112,7 @@ SRC_TIE = {
     "C07": ["eventCall", "reservedNames", "injectedNames", "bindExpected", "callableMethod"],
     "C13": _E + ["allowedEvents", "decl"],
     "C15": ["decl"],
+    "C18": ["diagram"],
     "C10": ["store", "smInit"],
     "C12": ["smInit", "registerCallbacks", "addListener", "registry"],
     "C17": ["getState", "setState", "registerCallbacks", "addListener"],
@@ -130,7 +131,7 @@ TIE_MOD = "SMV.Src.Tie"
 TIE_MODS = ["SMV.Src.Tie", "SMV.Src.TieExpr"]
 # further tie modules, built and audited only for the properties whose index names their theorems
 TIE_EXTRA = {"C07": ["SMV.Src.TieBind"], "C09": ["SMV.Src.TieCheck", "SMV.Src.TieDecl"], "C01": ["SMV.Src.TieDecl"],
-             "C15": ["SMV.Src.TieDecl"], "C10": ["SMV.Src.TieStore"],
+             "C15": ["SMV.Src.TieDecl"], "C18": ["SMV.Src.TieDiagram"], "C10": ["SMV.Src.TieStore"],
              "C11": ["SMV.Src.TieStore"], "C12": ["SMV.Src.TieStore", "SMV.Src.TieReg"], "C02": ["SMV.Src.TieReg"], "C13": ["SMV.Src.TieStore", "SMV.Src.TieDecl"],
              "C17": ["SMV.Src.TieStore"]}
 
